@@ -32,9 +32,12 @@ pub enum Op {
     Panic,
     /// a call made while no injector exists
     Outside,
+    /// evaluate the shared `fake!` line now and keep the pair; the next Begin installs that pair
+    /// instead of evaluating the line itself (evaluation decoupled from installation)
+    Build,
 }
 
-pub const ALPHABET: [Op; 8] = [Op::Begin, Op::M, Op::End, Op::X, Op::Outside, Op::Mu, Op::Panic, Op::Xu];
+pub const ALPHABET: [Op; 9] = [Op::Begin, Op::M, Op::End, Op::X, Op::Outside, Op::Mu, Op::Panic, Op::Xu, Op::Build];
 
 pub fn op_to_str(o: &Op) -> &'static str {
     match o {
@@ -46,6 +49,7 @@ pub fn op_to_str(o: &Op) -> &'static str {
         Op::End => "E",
         Op::Panic => "P",
         Op::Outside => "O",
+        Op::Build => "K",
     }
 }
 pub fn op_from_str(s: &str) -> Option<Op> {
@@ -54,24 +58,23 @@ pub fn op_from_str(s: &str) -> Option<Op> {
 
 pub const FAKE_VAL: u32 = 0xFA;
 
-/// The one source line per N.  All lifetimes of a history go through the same line.
+/// The one source line per N.  All lifetimes of a history go through the same line, whether the
+/// pair is installed at once or kept for a later lifetime.
 #[inline(never)]
-fn install_site(injector: &mut InjectorPP, n: usize) {
+fn build_site(n: usize) -> (FuncPtr, CallCountVerifier) {
     match n {
-        0 => injector
-            .when_called(inj::func!(fn(tt)(u32) -> u32))
-            .will_execute(inj::fake!(func_type: fn(x: u32) -> u32, when: x == 1, returns: 0xFA, times: 0)),
-        1 => injector
-            .when_called(inj::func!(fn(tt)(u32) -> u32))
-            .will_execute(inj::fake!(func_type: fn(x: u32) -> u32, when: x == 1, returns: 0xFA, times: 1)),
-        2 => injector
-            .when_called(inj::func!(fn(tt)(u32) -> u32))
-            .will_execute(inj::fake!(func_type: fn(x: u32) -> u32, when: x == 1, returns: 0xFA, times: 2)),
-        3 => injector
-            .when_called(inj::func!(fn(tt)(u32) -> u32))
-            .will_execute(inj::fake!(func_type: fn(x: u32) -> u32, when: x == 1, returns: 0xFA, times: 3)),
+        0 => inj::fake!(func_type: fn(x: u32) -> u32, when: x == 1, returns: 0xFA, times: 0),
+        1 => inj::fake!(func_type: fn(x: u32) -> u32, when: x == 1, returns: 0xFA, times: 1),
+        2 => inj::fake!(func_type: fn(x: u32) -> u32, when: x == 1, returns: 0xFA, times: 2),
+        3 => inj::fake!(func_type: fn(x: u32) -> u32, when: x == 1, returns: 0xFA, times: 3),
         _ => panic!("harness: no site for N={n}"),
     }
+}
+
+#[inline(never)]
+fn install_site(injector: &mut InjectorPP, n: usize, spare: &mut Option<(FuncPtr, CallCountVerifier)>) {
+    let pair = spare.take().unwrap_or_else(|| build_site(n));
+    injector.when_called(inj::func!(fn(tt)(u32) -> u32)).will_execute(pair);
 }
 
 #[inline(never)]
@@ -112,6 +115,7 @@ impl Model {
     pub fn enabled(&self, o: &Op) -> bool {
         match o {
             Op::Begin | Op::Outside => !self.alive,
+            Op::Build => true,
             _ => self.alive,
         }
     }
@@ -195,6 +199,7 @@ fn run_history_inner(n: usize, hist: &[Op]) -> Res {
     let mut res = Res { violations: Vec::new(), digest: 0xcbf29ce484222325, steps: 0 };
     let mut model = Model::default();
     let mut idx = 0usize;
+    let mut spare: Option<(FuncPtr, CallCountVerifier)> = None;
     // prop attribution: a mismatch in a lifetime that follows earlier activity of the same source
     // line is a C07 matter when the same lifetime would be fine as the first one; the reference
     // model *is* "every lifetime behaves like a first one", so: first lifetime -> C06, later -> C07
@@ -223,6 +228,14 @@ fn run_history_inner(n: usize, hist: &[Op]) -> Res {
                     continue;
                 }
                 Op::Begin => {}
+                Op::Build => {
+                    idx += 1;
+                    res.steps += 1;
+                    if let Some(old) = spare.replace(build_site(n)) {
+                        std::mem::forget(old);
+                    }
+                    continue;
+                }
                 _ => {
                     // an operation of a lifetime that a propagating call panic already ended
                     idx += 1;
@@ -241,7 +254,13 @@ fn run_history_inner(n: usize, hist: &[Op]) -> Res {
                 idx += 1;
                 vkit::isolate::set_progress(idx as u64);
                 match op {
-                    Op::Begin => install_site(&mut injector, n),
+                    Op::Begin => install_site(&mut injector, n, &mut spare),
+                    Op::Build => {
+                        // the line is evaluated again while an installation made from it is live
+                        if let Some(old) = spare.replace(build_site(n)) {
+                            std::mem::forget(old);
+                        }
+                    }
                     Op::M | Op::X => {
                         let arg = if op == Op::M { 1 } else { 2 };
                         let r = catch_unwind(|| tt(arg));
@@ -361,6 +380,10 @@ fn run_history_inner(n: usize, hist: &[Op]) -> Res {
                 res.violations.push(Violation { prop: "C12", key: "mapping-leaked".into(), step: idx, what: format!("{} trampoline mapping(s) still owned after the lifetime ended", owned.len()) });
             }
         }
+    }
+    // a pair that was built but never installed must not be verified by its destructor
+    if let Some(p) = spare.take() {
+        std::mem::forget(p);
     }
     if !POSTMORTEM.load(std::sync::atomic::Ordering::Relaxed) {
         return res;
